@@ -658,4 +658,95 @@ theorem sqrt_exact_counterexample : ¬ SqrtExact pySd [0, 2] := by
   unfold SqrtExact
   decide +kernel
 
+/-! ### phase 5 — size and even/odd thresholds of the statistics; first-seen mode -/
+
+/-- QUARTILE RANKS.  On sorted data of at least two values `percentile` at `1/4` and `3/4` is `quarterAt`: rank `q(n−1) / 4`
+(natural-number division), the value there when `q(n−1) % 4 = 0`, otherwise the two neighbouring order statistics with weights
+`1 − r/4`, `r/4` (`r` the remainder) — no floor of a rational left in the statement -/
+theorem percentile_quarter (s : List Rat) (q : Nat) (hq : q = 1 ∨ q = 3) (hn : 2 ≤ s.length) :
+    percentile s ((q : Rat) / 4) = quarterAt s q := percentile_quarter' s q hq hn
+
+/-- `iqr` of at least two values is the difference of the two `quarterAt` values of the sorted data -/
+theorem iqr_quarters (xs : List Rat) (hn : 2 ≤ xs.length) :
+    iqr xs = match quarterAt (isort xs) 1, quarterAt (isort xs) 3 with
+      | some a, some b => some (b - a)
+      | _, _ => none := iqr_quarters' xs hn
+
+/-- EVEN number of values (every even `n ≥ 2`): `n−1` is odd, so neither quartile rank is whole — both quartiles are proper
+interpolations between two neighbouring order statistics, with weights `r/4`, `r ∈ {1,3}` -/
+theorem iqr_even_interpolates (xs : List Rat) (hn : 2 ≤ xs.length) (he : xs.length % 2 = 0) :
+    ∃ a b c d, (isort xs)[(xs.length - 1) / 4]? = some a ∧ (isort xs)[(xs.length - 1) / 4 + 1]? = some b ∧
+      (isort xs)[3 * (xs.length - 1) / 4]? = some c ∧ (isort xs)[3 * (xs.length - 1) / 4 + 1]? = some d ∧
+      (xs.length - 1) % 4 ≠ 0 ∧ 3 * (xs.length - 1) % 4 ≠ 0 ∧
+      iqr xs = some (((1 - ((3 * (xs.length - 1) % 4 : Nat) : Rat) / 4) * c + ((3 * (xs.length - 1) % 4 : Nat) : Rat) / 4 * d)
+                   - ((1 - (((xs.length - 1) % 4 : Nat) : Rat) / 4) * a + (((xs.length - 1) % 4 : Nat) : Rat) / 4 * b)) :=
+  iqr_even_interpolates' xs hn he
+
+example : iqr [8, 1, 4, 2] = some ((1 - 1 / 4) * 4 + 1 / 4 * 8 - ((1 - 3 / 4) * 1 + 3 / 4 * 2)) := by decide +kernel
+
+/-- `n ≡ 1 (mod 4)` values (5, 9, 13, …): both ranks are whole — the interquartile range is the plain difference of the order
+statistics of rank `3(n−1)/4` and `(n−1)/4` -/
+theorem iqr_whole_ranks (xs : List Rat) (hn : 2 ≤ xs.length) (h4 : xs.length % 4 = 1) :
+    ∃ a c, (isort xs)[(xs.length - 1) / 4]? = some a ∧ (isort xs)[3 * (xs.length - 1) / 4]? = some c ∧ iqr xs = some (c - a) :=
+  iqr_whole_ranks' xs hn h4
+
+example : iqr [16, 1, 4, 2, 8] = some (8 - 2) := by decide +kernel
+
+/-- the size thresholds of `iqr`: no value / one value → 0 (`len(values) <= 1`); two values → half their distance -/
+theorem iqr_small : iqr [] = some 0 ∧ (∀ a, iqr [a] = some 0) ∧ (∀ a b, iqr [a, b] = some (absR (b - a) / 2)) := iqr_small'
+
+/-- `statistics.median` at its smallest sizes and, for every non-empty data set, by parity of the count: odd → the middle order
+statistic, even → the mean of the two middle ones -/
+theorem median_small : median [] = none ∧ (∀ a, median [a] = some a) ∧ (∀ a b, median [a, b] = some ((a + b) / 2)) := median_small'
+
+theorem median_parity (xs : List Rat) (hn : xs ≠ []) :
+    (xs.length % 2 = 1 → ∃ a, (isort xs)[xs.length / 2]? = some a ∧ median xs = some a) ∧
+    (xs.length % 2 = 0 → ∃ a b, (isort xs)[xs.length / 2 - 1]? = some a ∧ (isort xs)[xs.length / 2]? = some b ∧
+        median xs = some ((a + b) / 2)) := median_parity' xs hn
+
+/-- FIRST-SEEN MODE.  The value `mode` returns splits the data as `pre ++ m :: post` where every value of `pre` occurs strictly
+less often than `m` (so `m` is the FIRST value reaching the maximal count — not the smallest, not the last) and no value of
+`post` occurs more often -/
+theorem mode_first_seen {vs : List Val} {m : Val} (h : mode vs = some m) :
+    ∃ pre post, vs = pre ++ m :: post ∧ (∀ v ∈ pre, count v vs < count m vs) ∧ (∀ v ∈ post, count v vs ≤ count m vs) :=
+  mode_first_seen' h
+
+/-- …equivalently: among the values of maximal count, `m` has the least index of first occurrence -/
+theorem mode_not_before {vs : List Val} {m : Val} (h : mode vs = some m) (v : Val) (hv : v ∈ vs)
+    (hc : count v vs = count m vs) : vs.idxOf m ≤ vs.idxOf v := mode_not_before' h v hv hc
+
+/-- first seen ≠ smallest, ties, mixed strings and numbers -/
+example : mode [.num 3, .num 1, .num 1, .num 3] = some (.num 3) := by decide +kernel
+example : mode [.str "b", .num 1, .str "a", .num 1, .str "b"] = some (.str "b") := by decide +kernel
+example : mode [.num 2, .str "a", .str "a", .num 2, .str "a"] = some (.str "a") := by decide +kernel
+
+/-! ### phase 5 — translator tie from constants to BODIES: the statistic bodies as expression programs -/
+
+/-- the model's `percentile` IS the expression program `pctProg` (the three early returns, `i = p·(len−1)`, `I = int(i)`,
+`values[I]` if `i == I`, else `w = i − I`, `(1−w)·values[I] + w·values[I+1]`, Python indexing and `int`), for every non-empty
+list and every `p ≥ 0` -/
+theorem percentile_program (s : List Rat) (p : Rat) (hp : 0 ≤ p) (hs : s ≠ []) : pctProg.run s p = percentile s p :=
+  percentile_program' s p hp hs
+
+example : pctProg.run [1, 2, 4, 8] (1 / 4) = some ((1 - 3 / 4) * 1 + 3 / 4 * 2) := by decide +kernel
+
+/-- the model's `iqr` IS the program `iqrProg` (`len(values) <= 1 → 0`, percentiles `[1/4, 3/4]` of the sorted values bound to
+two names, second minus first), for every list -/
+theorem iqr_program (xs : List Rat) : iqrProg.run xs = iqr xs := iqr_program' xs
+
+/-- the application expression `(x + shift) * scale` evaluates to what `applyVal` writes; `sum(values)/len(values)` is `mean` -/
+theorem apply_program (x s f : Rat) :
+    applyExpr.eval [("x", x), ("shift", s), ("scale", f)] [] = some ((x + s) * f) ∧ applyVal (s, f) (.num x) = .num ((x + s) * f) :=
+  apply_program' x s f
+
+theorem mean_program (xs : List Rat) : meanExpr.eval [] xs = mean xs := mean_program' xs
+
+/-- TRANSLATOR OBLIGATION: the programs extracted from the CURRENT source (`Generated/C11Programs.lean`: bodies of
+`coba.statistics.percentile`/`iqr`, every `… = (… + shift) * scale` assignment of `Scale.filter`, the `"mean"` branch of
+`Impute._get_imputation`) are the model's programs — with the four theorems above: the source bodies compute the model's functions -/
+theorem programs_match_source :
+    Coba.Generated.C11.pctSrc = pctProg ∧ Coba.Generated.C11.iqrSrc = iqrProg ∧
+    (Coba.Generated.C11.applySrc ≠ [] ∧ ∀ e ∈ Coba.Generated.C11.applySrc, e = applyExpr) ∧ Coba.Generated.C11.meanSrc = meanExpr :=
+  programs_match_source'
+
 end Coba.C11
